@@ -298,7 +298,7 @@ static void run_negative(long idx)
         size_t const i = vr_u64(&r, v.n); ZSTD_Sequence* s = &v.s[i];
         size_t pos = 0; for (size_t j = 0; j < i; j++) pos += (size_t)v.s[j].litLength + v.s[j].matchLength;
         size_t const start = pos + s->litLength; size_t const bound = start > C.window ? C.window : start + dictLen;
-        switch (vr_u(&r, explicitDelims ? 9 : 4)) {
+        switch (vr_u(&r, explicitDelims ? 11 : 4)) {
         case 0: if (s->offset) { s->offset = (uint32_t)(bound + 1 + (vr_chance(&r, 1, 2) ? 0 : vr_u(&r, 1000))); kind = "offset-beyond-history"; } break;
         case 1: if (s->offset) { s->offset = vr_chance(&r, 1, 2) ? 0xFFFFFFFFu : (uint32_t)(C.window + 1 + vr_u(&r, 100000)); kind = "offset-beyond-window"; } break;
         case 2: if (s->offset && !explicitDelims ? (s->matchLength >= 3) : (s->offset != 0)) { uint32_t const oldml = s->matchLength; s->matchLength = vr_u(&r, 3); if (!explicitDelims) s->litLength += 0; (void)oldml; kind = "matchLength-below-3"; } break;
@@ -307,6 +307,10 @@ static void run_negative(long idx)
         case 5: { for (size_t j = 0; j < v.n; j++) if (v.s[j].offset == 0 && v.s[j].matchLength == 0) { v.s[j].matchLength = 1 + vr_u(&r, 50); kind = "malformed-delimiter"; break; } break; }
         case 6: { for (size_t j = 0; j < v.n; j++) if (v.s[j].offset == 0 && v.s[j].matchLength == 0 && vr_chance(&r, 1, 2)) { v.s[j].litLength += 1 + vr_u(&r, 100); kind = "block-lengths-exceed-source"; break; } break; }
         case 7: { for (size_t j = 0; j < v.n; j++) if (v.s[j].offset == 0 && v.s[j].matchLength == 0 && v.s[j].litLength > 0) { v.s[j].litLength -= 1; kind = "block-lengths-short-of-source"; break; } break; }
+        case 9: case 10: {   /* a non-final delimiter removed: two caller blocks merged into one, larger than this context's block size limit when the window is below 128 KiB */
+            size_t cand[64]; int nc2 = 0; for (size_t j = 0; j + 1 < v.n && nc2 < 64; j++) if (v.s[j].offset == 0 && v.s[j].matchLength == 0) cand[nc2++] = j;
+            if (nc2) { size_t const j = cand[vr_u(&r, (uint32_t)nc2)]; uint32_t const carry = v.s[j].litLength; memmove(&v.s[j], &v.s[j + 1], (v.n - j - 1) * sizeof(ZSTD_Sequence)); v.n--; v.s[j].litLength += carry; kind = "merged-blocks(delimiter removed)"; }
+            break; }
         case 8: { s->litLength = 0xFFFFFFFFu - vr_u(&r, 64); if (vr_chance(&r, 1, 2)) s->matchLength += vr_u(&r, 200); kind = "huge-length(32-bit wrap)"; break; }
         default: break; }
     }
